@@ -11,7 +11,9 @@ unchanged.
 code -> spec: random deeper trees (two names, depth 4-5) are run and their reader logs validated by
 TLC (spec/Trace_C07.tla) against the law and the mechanism.
 """
+import json
 import random
+import zlib
 
 import glom
 from glom import S, A, T, Vars, Coalesce, Val
@@ -82,6 +84,10 @@ def worker(states):
         # a variables object may be a Vars, a dict literal or the empty dict literal: one law for all
         for flavour in (FLAVOURS if has_kind(tree, 'vbind') else ['vars']):
             one_case(out, tree, run, caller, flavour)
+        # on a deterministic quarter of the trees with an S.x reader: the same lookups made inside the key spec
+        # of Iter().first(key) (a spec evaluated under the scope of the position it stands at)
+        if has_kind(tree, 'read') and zlib.crc32(json.dumps(tree, sort_keys=True).encode()) % 4 == 0:
+            one_case(out, tree, run, caller, 'firstkey')
     return out
 
 
